@@ -114,6 +114,61 @@ def _const_keys_added(fn_node, kw_names) -> dict:
     return out
 
 
+def _dict_keys(ctx, e, fn, recv, depth=0):
+    """{constant key: where} of a dictionary expression built by the package's own code — a display (with `**inner`), a local filled
+    key by key, `dict(k=..)`, the result of a package function (dispatched on the receiver class: what it returns) — else None."""
+    from ._c16_flow import resolve_call
+
+    if depth > 14 or e is None:
+        return None
+    at = lambda n: f"{fn.module.relpath}:{getattr(n, 'lineno', fn.node.lineno)}"  # noqa: E731
+    if isinstance(e, ast.Dict):
+        out = {}
+        for k, v in zip(e.keys, e.values):
+            if k is None:
+                out.update(_dict_keys(ctx, v, fn, recv, depth + 1) or {})  # what is known of it: a clash among known keys is a clash
+            elif isinstance(k, ast.Constant) and isinstance(k.value, str):
+                out.setdefault(k.value, at(e))
+        return out
+    if isinstance(e, ast.Name):
+        a = fn.node.args
+        if e.id in {x.arg for x in a.posonlyargs + a.args + a.kwonlyargs} or (a.kwarg is not None and e.id == a.kwarg.arg):
+            return None  # the caller's
+        defs = Locals(fn.node).defs.get(e.id, [])
+        if not defs:
+            return None
+        out = {}
+        for d in defs:
+            got = _dict_keys(ctx, d, fn, recv, depth + 1)
+            if got is None:
+                return None
+            out.update(got)
+        for k, ln in _const_keys_added(fn.node, {e.id}).items():
+            out.setdefault(k, f"{fn.module.relpath}:{ln}")
+        return out
+    if isinstance(e, ast.Call):
+        if isinstance(e.func, ast.Name) and e.func.id == "dict":
+            out = {}
+            for a in e.args:
+                out.update(_dict_keys(ctx, a, fn, recv, depth + 1) or {})
+            out.update({k.arg: at(e) for k in e.keywords if k.arg})
+            return out
+        targets = resolve_call(ctx.p, fn, e, recv)
+        if not targets:
+            return None
+        out = {}
+        for target, r in targets:
+            view = ctx.view(target)
+            rets = [x.value for x in ast.walk(view.node) if isinstance(x, ast.Return) and x.value is not None]
+            for rv in rets:
+                got = _dict_keys(ctx, rv, view, r, depth + 1)
+                if got is None:
+                    return None
+                out.update(got)
+        return out
+    return None
+
+
 def geometry_kept(ctx, res):
     p = ctx.p
     base = p.cls("BaseMerger")
@@ -142,6 +197,10 @@ def geometry_kept(ctx, res):
                     for k in c.keywords:
                         if k.arg:
                             explicit.setdefault(k.arg, f"{fn.module.relpath}:{c.lineno}")
+                        elif not (isinstance(k.value, ast.Name) and k.value.id in kw):
+                            # `**geometry`: a dictionary the merger builds itself (a display, filled key by key, returned by a hook)
+                            for key, where in (_dict_keys(ctx, k.value, fn, _recv) or {}).items():
+                                explicit.setdefault(key, where)
                 elif c.func.attr == "create_object" and isinstance(c.func.value, ast.Call) and unparse(c.func.value.func) == "super":
                     # keywords written out in a delegation travel in the callee's **kwargs
                     callee_params = set(fn.params)
